@@ -254,7 +254,9 @@ func (e *Equation) Append(buf []byte, parens bool) []byte {
 		case not.code:
 			buf = append(buf, '!')
 			if e.left != nil {
-				buf = e.left.Append(buf, e.left.o != nil && e.left.o.prec >= e.o.prec)
+				// A path (Get) operand is not wrapped, the parser reads
+				// !(@.x) as !@.x and would print it without parenthesis.
+				buf = e.left.Append(buf, e.left.o != nil && e.left.o.code != get.code && e.left.o.prec >= e.o.prec)
 			}
 		case get.code:
 			if e.left != nil {
